@@ -15,6 +15,21 @@ RUNNER = os.path.join(VERIF, "engines", "run_mirx.sh")
 ALL_FEATURES = ["std", "macros", "par_iter", "deser"]
 
 
+def all_features(repo=None):
+    """(features, default set) declared in indextree/Cargo.toml of the tree under analysis (known ones first, so that configuration names stay stable)."""
+    repo = repo or REPO
+    try:
+        import tomllib
+        with open(os.path.join(repo, "indextree", "Cargo.toml"), "rb") as fh:
+            t = tomllib.load(fh)
+        feats = t.get("features", {})
+        names = [f for f in ALL_FEATURES if f in feats] + sorted(f for f in feats if f not in ALL_FEATURES and f != "default")
+        default = [f for f in feats.get("default", []) if f in names]
+        return names, default
+    except Exception:
+        return list(ALL_FEATURES), ["std", "macros"]
+
+
 def _tree_files(repo):
     out = []
     for top in ("indextree", "indextree-macros"):
